@@ -37,10 +37,11 @@ Key(p) == ((p[1] * 8 + p[2]) * 16 + p[3]) * 16 + p[4]
 PathBelow(a, x) == LET q == FromIJ(x[1], x[2], x[3], x[4])[2] IN SubSeq(q, a[2] + 1, x[2])
 
 MinLev(S) == CHOOSE n \in {x[2] : x \in S} : \A x \in S : n <= x[2]
-\* levels: everything from just above the anchor to MaxUp below the coarsest cell, and far above
+\* levels: everything from just above the anchor to MaxUp below the coarsest cell, and (for unions
+\* of one or two cells) far above the anchor
 LevelsFor(g, S) ==
     LET al == A1(g)[2]  top == Min(MaxLevel, MinLev(S) + MaxUp)
-    IN  {l \in 0..top : l >= al - 1} \cup {0, al \div 2}
+    IN  {l \in 0..top : l >= al - 1} \cup (IF Cardinality(S) <= 2 THEN {0, al \div 2} ELSE {})
 
 VARIABLE t
 Init == t \in {<<g>> : g \in 1..Len(Groups)}
